@@ -48,7 +48,8 @@ def signal(kind, n, rng):
     if kind == 'amfm':
         return (1 + .5 * np.sin(2 * np.pi * t * .01)) * np.sin(2 * np.pi * (.05 * t + 2 * np.sin(2 * np.pi * t * .004)))
     if kind == 'plateau':
-        return np.round(2 * rng.randn(n))
+        v = np.round(2 * rng.randn(n))
+        return v.astype(np.int64) if rng.rand() < .3 else v
     if kind == 'const':
         return np.full(n, float(rng.randn()))
     if kind == 'ramp':
@@ -451,5 +452,180 @@ def run_c01():
     return ctx.finish()
 
 
+# ---------------------------------------------------------------------------------------------
+# C03: caps and peeling across variants
+
+def _cap_records(args):
+    seed, count = args
+    emd = core.import_emd()
+    rng = np.random.RandomState(seed)
+    recs, notes = [], []
+    S = emd.sift
+    for it in range(count):
+        kind = ('noise', 'walk', 'tones', 'amfm', 'plateau')[rng.randint(5)]
+        n = int(rng.choice([64, 128, 256]))
+        x = signal(kind, n, rng)
+        if kind == 'plateau':
+            x = (x * 100).astype(np.int64)            # integer-typed recordings (ADC counts) are finite signals too
+        o = imf_opts_for(rng, maxit_choices=(1000,))
+        if o['stop_method'] == 'fixed':
+            o['max_iters'] = int(rng.choice([3, 5]))
+        eo = {'interp_method': 'splrep' if rng.rand() < .7 else 'pchip'}
+        xo = {'pad_width': int(rng.randint(1, 4))}
+        base = {'imf_opts': o, 'envelope_opts': eo, 'extrema_opts': xo}
+        cfgd = {'seed': seed, 'it': it, 'sig': kind, 'n': n}
+        # ---- classic -------------------------------------------------------------------------
+        unc = core.guarded(S.sift, x, _timeout=60, **base)
+        if not isinstance(unc, str) and unc.ndim == 2 and unc.shape[1] <= 40:
+            nu = unc.shape[1]
+            for cap in range(1, nu + 3):
+                c = core.guarded(S.sift, x, max_imfs=cap, _timeout=60, **base)
+                recs.append(dict(cfgd, **_capped('sift', cap, 0, unc, c, n)))
+            for k in range(nu):
+                resid = x[:, None] - unc[:, :k].sum(axis=1)[:, None]
+                e = core.guarded(S.get_next_imf, resid, envelope_opts=eo, extrema_opts=xo, **o)
+                recs.append(dict(cfgd, kind='peel', variant='sift', k=k + 1,
+                                 equal=int(not isinstance(e, str) and np.array_equal(e[0][:, 0], unc[:, k]))))
+        # ---- masked ---------------------------------------------------------------------------
+        mode = ('zc', .2, 'list', 'list')[rng.randint(4)]
+        mk = dict(base, mask_amp=float(rng.choice([.5, 1, 2])), mask_amp_mode='ratio_sig', nphases=int(rng.choice([1, 4])))
+        listlen = 0
+        if mode == 'list':
+            listlen = int(rng.choice([3, 6, 8]))
+            mk['mask_freqs'] = [.3 / 2 ** i for i in range(listlen)]
+        else:
+            mk['mask_freqs'] = mode
+        unc = core.guarded(S.mask_sift, x, max_imfs=9, ret_mask_freq=True, _timeout=60, **mk)
+        if not isinstance(unc, str):
+            unc, freqs = unc
+            nu = unc.shape[1]
+            for cap in range(1, min(nu, 9) + 3):
+                c = core.guarded(S.mask_sift, x, max_imfs=cap, _timeout=60, **mk)
+                r = _capped('mask', cap, listlen, unc, c, n)
+                recs.append(dict(cfgd, **r))
+            amp = mk['mask_amp'] * x[:, None].std()
+            for k in range(nu):
+                resid = x[:, None] - unc[:, :k].sum(axis=1)[:, None]
+                e = core.guarded(S.get_next_imf_mask, resid, freqs[k], amp, nphases=mk['nphases'], imf_opts=o,
+                                 envelope_opts=eo, extrema_opts=xo)
+                recs.append(dict(cfgd, kind='peel', variant='mask', k=k + 1,
+                                 equal=int(not isinstance(e, str) and np.array_equal(e[0][:, 0], unc[:, k]))))
+        # ---- ensemble variants (small, seeded, one process) --------------------------------------
+        if it % 2 == 0:
+            xs = x[:96]
+            for variant, fn in (('ensemble', S.ensemble_sift), ('ceemd', S.complete_ensemble_sift)):
+                for cap in (0, 1, 2, 3, 5):
+                    np.random.seed(seed + cap)
+                    c = core.guarded(fn, xs, nensembles=2, nprocesses=1, max_imfs=(cap or None),
+                                     noise_mode=('single', 'flip')[cap % 2], _timeout=120, **base)
+                    if isinstance(c, str):
+                        recs.append(dict(cfgd, kind='capvar', variant=variant, cap=cap, raised=1, ncols=-1, ndim=-1, finite=-1, nrows=-1, n=len(xs)))
+                        notes.append('%s(max_imfs=%s) %s' % (variant, cap or None, c))
+                    else:
+                        a = c[0] if isinstance(c, tuple) else c
+                        recs.append(dict(cfgd, kind='capvar', variant=variant, cap=cap, raised=0, ncols=int(a.shape[1]) if a.ndim == 2 else -1,
+                                         ndim=int(a.ndim), finite=int(np.all(np.isfinite(a))), nrows=int(a.shape[0]), n=len(xs)))
+        # ---- second layer ------------------------------------------------------------------------
+        if it % 4 == 0:
+            first = core.guarded(S.sift, x, max_imfs=3, **base)
+            if not isinstance(first, str) and first.shape[1] >= 2:
+                IA = np.abs(first)
+                for cap in (0, 1, 2, first.shape[1]):
+                    args = dict(base, max_imfs=cap) if cap else None
+                    c = core.guarded(S.sift_second_layer, IA, sift_args=args, _timeout=120) if args else 'raise:skipped'
+                    recs.append(_second(cfgd, 'second', cap, c, n, IA.shape[1]))
+                    margs = {'max_imfs': cap} if cap else None
+                    c = core.guarded(S.mask_sift_second_layer, IA, [.2 / 2 ** i for i in range(8)], sift_args=margs, _timeout=120)
+                    recs.append(_second(cfgd, 'mask_second', cap, c, n, IA.shape[1]))
+    return recs, notes
+
+
+def _capped(variant, cap, listlen, unc, c, n):
+    if isinstance(c, str):
+        return {'kind': 'capped', 'variant': variant, 'cap': cap, 'listlen': listlen, 'ncols_unc': int(unc.shape[1]), 'ncols': -99,
+                'prefix_equal': 0, 'ndim': -1, 'finite': 0, 'nrows': -1, 'n': n, 'err': c}
+    k = c.shape[1] if c.ndim == 2 else -1
+    return {'kind': 'capped', 'variant': variant, 'cap': cap, 'listlen': listlen, 'ncols_unc': int(unc.shape[1]), 'ncols': int(k),
+            'prefix_equal': int(c.ndim == 2 and k <= unc.shape[1] and np.array_equal(c, unc[:, :k])), 'ndim': int(c.ndim),
+            'finite': int(np.all(np.isfinite(c))), 'nrows': int(c.shape[0]), 'n': n}
+
+
+def _second(cfgd, variant, cap, c, n, nimf1):
+    if isinstance(c, str):
+        return dict(cfgd, kind='second', variant=variant, cap=cap, raised=1, ndim=-1, shape=[], finite=-1, n=n, nimf1=nimf1)
+    return dict(cfgd, kind='second', variant=variant, cap=cap, raised=0, ndim=int(c.ndim), shape=[int(v) for v in c.shape],
+                finite=int(np.all(np.isfinite(c))), n=n, nimf1=nimf1)
+
+
 def run_c03():
-    raise MachineryError('not built yet')
+    ctx = Ctx('C03')
+    emd = core.import_emd()
+    ML = ctx.pick(3, 4)
+    consts = {'MaxLayers': ML, 'Caps': core.tla_value(set(range(0, ML + 3))), 'Outcomes': '{"imf", "resid", "imf_energy", "raise"}', 'Dev': '{}'}
+    cfg = os.path.join(ctx.work, 'sf.cfg')
+    core.write_cfg(cfg, spec='Spec', invariants=SIFT_INVS, properties=['Terminates'], constants=consts)
+    res = core.run_tlc(ctx, 'Sift', cfg, name='Sift outer loop x caps 0..%d' % (ML + 2))
+    core.require_ok(res, 'Leg A Sift with caps')
+    core.write_cfg(cfg, spec='Spec', invariants=['W_Capped'], constants=consts)
+    core.expect_violation(ctx, 'Sift', cfg, 'W_Capped', 'Sift W_Capped', workers=4)
+    vc = {'MaxNat': 5, 'Caps': '{0, 1, 2, 3, 4, 5, 6, 7}', 'ListLens': '{0, 1, 2, 3, 6, 9}', 'Dev': '{}'}
+    core.write_cfg(cfg, spec='Spec', invariants=['CapRespected', 'MaskCount', 'CeemdCount'], properties=['Terminates'], constants=vc)
+    res = core.run_tlc(ctx, 'SiftVariants', cfg, name='SiftVariants caps', workers=4)
+    core.require_ok(res, 'Leg A SiftVariants')
+    core.write_cfg(cfg, spec='Spec', invariants=['CapRespected'], constants=dict(vc, Dev='{"CEEMD_CapTestBeforeIncrement"}'))
+    core.expect_violation(ctx, 'SiftVariants', cfg, 'CapRespected', 'SiftVariants with the CEEMD cap deviation (defect fixed in eb56b8a)', workers=2)
+    core.write_cfg(cfg, spec='Spec', invariants=['W_CapBinds'], constants=vc)
+    core.expect_violation(ctx, 'SiftVariants', cfg, 'W_CapBinds', 'SiftVariants W_CapBinds', workers=2)
+    core.write_cfg(cfg, spec='Spec', invariants=['Export'], constants=consts)
+    res = core.run_tlc(ctx, 'Sift', cfg, name='Sift behaviour export (caps)', workers=1)
+    core.require_ok(res, 'Sift export')
+    behs = parse_behaviours(res['out'])
+    ctx.leg('A', invariants=SIFT_INVS + ['SiftVariants!CapRespected', 'MaskCount', 'CeemdCount', 'Terminates'], behaviours=len(behs))
+    import multiprocessing as mp
+    idx = list(enumerate(behs))
+    jobs = [idx[i:i + 60] for i in range(0, len(idx), 60)]
+    nbad = nskip = 0
+    with mp.Pool(core.NCPU) as pool:
+        for part in pool.imap_unordered(_replay_sift_job, jobs):
+            for i, diff in part:
+                if diff == 'skip':
+                    nskip += 1
+                    continue
+                ctx.cov['evaluations'] += 1
+                if behs[i]['cap'] and 'cap' in behs[i]['reasons']:
+                    ctx.nontrivial(('B', i))
+                if diff:
+                    nbad += 1
+                    if nbad <= 5:
+                        ctx.violation('C03 leg B: real sift(max_imfs=%s) does not reproduce TLC behaviour out=%s small=%s: %s' % (
+                            behs[i]['cap'] or None, behs[i]['out'], behs[i]['small'], diff), {'leg': 'B', 'behaviour': behs[i], 'index': i, 'difference': diff})
+                else:
+                    ctx.cov['traces_validated_against_impl'] += 1
+        ctx.sample({'leg': 'B', 'behaviour': [b for b in behs if b['cap'] == 2 and b['layer'] == 2][0]})
+    nsig = ctx.pick(64, 640)
+    parts = core.pmap(_cap_records, [(ctx.seed * 1000 + i, max(1, nsig // 16)) for i in range(16)])
+    recs = [r for p in parts for r in p[0]]
+    notes = sorted(set(n for p in parts for n in p[1]))
+    for nn in notes[:6]:
+        ctx.note('crash on valid input (not a C03 verdict): ' + nn)
+    bad = core.validate_records(ctx, 'SiftVariantsRec', recs, name='SiftVariantsRec')
+    for r in recs:
+        if r['kind'] == 'capped' and r['cap'] < r['ncols_unc']:
+            ctx.nontrivial(('C', r['variant'], r['seed'], r['it'], r['cap']))
+    ctx.sample([r for r in recs if r['kind'] == 'capped' and r['cap'] == 2][0])
+    ctx.sample([r for r in recs if r['kind'] == 'capvar'][0])
+    kinds = {}
+    for r in recs:
+        kinds[r['kind'] + ':' + r['variant']] = kinds.get(r['kind'] + ':' + r['variant'], 0) + 1
+    ctx.leg('B', behaviours_replayed=len(behs) - nskip, not_scriptable=nskip, mismatches=nbad)
+    ctx.leg('C', records=kinds, crashes_noted=len(notes))
+    seen = {}
+    for r, clause in bad:
+        seen.setdefault((clause, r['variant']), []).append(r)
+    for (clause, variant), rs in seen.items():
+        ctx.violation('C03: %s violated by %s on %d records; first: %s' % (clause, variant, len(rs), rs[0]), {'clause': clause, 'record': rs[0]})
+    ctx.cov['rule'] = ('Leg B: every behaviour of Sift.tla x caps 0..%d replayed through the real sift(max_imfs); Leg C: for each corpus signal the uncapped run and '
+                       'caps 1..ncols+2 of sift and mask_sift (zc / float / list ladders; prefix bit-equality), peeling (get_next_imf / get_next_imf_mask on externally '
+                       'computed residuals, bit-equality), ensemble_sift / complete_ensemble_sift (seeded, caps 1,2,3,5,None, both noise modes) and both second-layer sifts; '
+                       'non-trivial = capped runs whose cap is below the uncapped column count' % (ML + 2))
+    return ctx.finish()
